@@ -318,26 +318,32 @@ func Exec(t *testing.T, sc Scenario, shard int, r *evid.Run) (fail *evid.Failure
 		if !deduped {
 			continue // a NON request without a reply through the response writer may legitimately run again
 		}
-		// epochs: a copy is "fresh" if it arrives strictly after (last reply of the epoch + lifetime),
-		// a "duplicate" if strictly before (first arrival of the epoch + lifetime); anything between is not asserted
+		// epochs: a copy is "fresh" if it arrives strictly after (first reply of the epoch + lifetime) -
+		// the reply is cached when it is produced, which for a slow handler is later than the arrival;
+		// replies to duplicates do not prolong the entry - and a "duplicate" if strictly before (first
+		// arrival of the epoch + lifetime); anything between is not asserted
 		epochs, grey := 0, false
-		var epochFirst, epochLastReply time.Duration
+		var epochFirst, epochFirstReply time.Duration
+		firstReplyFrom := func(t0 time.Duration) time.Duration {
+			for _, rp := range replies { // in wire order
+				if rp.t >= t0 {
+					return rp.t
+				}
+			}
+			return t0
+		}
 		for i, c := range cs {
 			switch {
 			case i == 0:
 				epochs, epochFirst = 1, c.t
+				epochFirstReply = firstReplyFrom(c.t)
 			case c.t < epochFirst+lifetime:
-			case c.t > epochLastReply+lifetime:
+			case c.t > epochFirstReply+lifetime:
 				epochs++
 				epochFirst = c.t
+				epochFirstReply = firstReplyFrom(c.t)
 			default:
 				grey = true
-			}
-			epochLastReply = c.t
-			for _, rp := range replies {
-				if rp.t >= epochFirst && rp.t > epochLastReply {
-					epochLastReply = rp.t
-				}
 			}
 		}
 		if grey {
@@ -488,7 +494,7 @@ func TestCheck(t *testing.T) {
 	})
 	r.Main(evid.Meta{
 		Rule:        "a server-side datagram connection on the in-memory network inside a synctest bubble; the scripted peer injects 1-4 requests (CON/NON, MIDs from sets that include 0/65535 and the MIDs the server itself just used), duplicates them back-to-back, interleaved and around the 247 s lifetime boundary (virtual clock), with handlers that answer piggy-backed, not at all, separately, or slowly behind a gate, processed by the default loop or a goroutine per message; oracle: a reference de-duplication table over the handler log and the wire log (at most one execution per lifetime epoch, every duplicate answered with the first reply's code/token/options/payload and the duplicate's MID, fresh again after the lifetime, unseen MIDs always executed). Non-trivial = at least one duplicate delivered; distinct by scenario",
-		Assumptions: []string{"'not again' is asserted only strictly before first arrival + 247 s, 'fresh again' only strictly after last reply + 247 s and a tick", "a NON request answered by a separate message (not through the response writer) or not at all may be executed again", "goroutine interleavings inside the bubble are chosen by the Go runtime"},
+		Assumptions: []string{"'not again' is asserted only strictly before first arrival + 247 s, 'fresh again' only strictly after the first reply of the epoch + 247 s and a tick (replies to duplicates do not prolong the lifetime)", "a NON request answered by a separate message (not through the response writer) or not at all may be executed again", "goroutine interleavings inside the bubble are chosen by the Go runtime"},
 		Floor:       300,
 	}, eng)
 }
